@@ -67,7 +67,8 @@ func H_C19_cors(cfg int) {
 	useOptions := cfg/2 == 1
 	mk := func(h *vH) *Container {
 		c := h.build(CurlyRouter{})
-		c.Filter(k.filter(c).Filter)
+		cors := k.filter(c)
+		c.Filter(cors.Filter)
 		if useOptions {
 			c.Filter(c.OPTIONSFilter)
 		}
